@@ -306,6 +306,16 @@ def check(run, terrs):
                                  f"from a fresh thread: {rq['code'][:100]}", "expected": exp, "got": got})
                 break
     run.log("histories done")
+    # (f) array representation histories: views above the concatenation threshold with evaluated and
+    # unevaluated halves, cut back and concatenated again (C08's rebuild family + random view trees); here only
+    # "no crash" is judged, C08 judges the values
+    from props import c08 as _c08
+    ag = _c08.Gen(run.rng.fork("arrhist"))
+    ops = _c08.rebuild_family(ag, sizes=(1001,)) + [ag.op(2 + k % 3) for k in range(400 if run.tier == "thorough" else 120)]
+    reqs = [{"code": f"local a = {_c08.op_js(o)}; [std.length(a), a, [x for x in a], a + a]", "out": "minify"} for o in ops]
+    outs = core.run_harness(binary, "eval", reqs, mem_limit=MEM)
+    crash_failures(reqs, outs, "arrays")
+    run.log("array histories done")
     # (e) deep inputs through the real executable
     bindir, berr = core.build_repo_bins(run, packages=("jrsonnet",))
     if not bindir:
@@ -346,5 +356,5 @@ RULE = ("(a) every function of the real std object x argument tuples from a 28-v
         "57-token hostile alphabet) and single-token mutations of generated programs, through both parsers; "
         "(c) recursion of three shapes swept across the frame limit for limits {default,40,200,500} + ten self-"
         "dependent values; (d) random histories of failing/succeeding evaluations on one thread vs fresh threads; "
-        "(e) 6 nesting shapes x depth {100,400,20000} through the real executable; every case is distinct and "
+        "(e) 6 nesting shapes x depth {100,400,20000} through the real executable; (f) array-view histories (concatenations above the extension threshold of evaluated and unevaluated halves, cut back and concatenated again, random view trees); every case is distinct and "
         "non-trivial (each exercises a parse/evaluate path); outcome classes: value | Jsonnet error | PANIC | ABORT")
